@@ -26,15 +26,15 @@ def _narrowed(a):
     return False
 
 
-def check(a, what, inp):
+def check(a, what, inp, sub='typed'):
     if astx.cname(a) == 'HplProperty':
         for evn in (a.scope.activator, a.scope.terminator, a.pattern.trigger, a.pattern.behaviour):
             for se in astx.flat_events(evn):
-                check(se.predicate, what + f' / predicate of {se.name}', inp)
+                check(se.predicate, what + f' / predicate of {se.name}', inp, sub)
         return
     if astx.cname(a) == 'HplSpecification':
         for p in a.properties:
-            check(p, what, inp)
+            check(p, what, inp, sub)
         return
     bad = typesig.check_ast(a)
     if bad:
@@ -44,7 +44,7 @@ def check(a, what, inp):
 
         sig = re.sub(r'typed [a-z|]+', 'typed T', sig)
         sig = re.sub(r'(argument|reference|variable) \S+', r'\1', sig)
-        raise Violation('typed', f'{what.split(" ")[0]}:{sig[:70]}', inp, f'ill-typed AST from {what}: {a}\n  ' + '\n  '.join(bad[:5]))
+        raise Violation(sub, f'{what.split(" ")[0]}:{sig[:70]}', inp, f'ill-typed AST from {what}: {a}\n  ' + '\n  '.join(bad[:5]))
 
 
 def derived(a, inp, depth, what='parse'):
@@ -124,17 +124,17 @@ def sub_alike(inp):
     if 'ast' not in (k2,) or k3 != 'ast':
         return 'rejected-by-parser'
     if k == 'ast':
-        check(first, 'parse', inp)
+        check(first, 'parse', inp, 'alike')
     st, slim = core.guarded(simplify, narrow)
     if st == 'exc' or not getattr(slim, 'is_predicate', False):
         return 'not-simplified'
-    check(slim, 'simplify', inp)
+    check(slim, 'simplify', inp, 'alike')
     n = 0
     for what, fn in (('simplify(narrow).join(use)', lambda: slim.join(use)), ('use.join(simplify(narrow))', lambda: use.join(slim)),
                      ('narrow.join(use)', lambda: narrow.join(use))):
         st, j = core.guarded(fn)
         if st == 'ok' and hasattr(j, '__attrs_attrs__'):
-            check(j, what, inp)
+            check(j, what, inp, 'alike')
             n += 1
     return 'joined' if n else 'join-refused'
 
